@@ -62,19 +62,31 @@ impl NodeCtl {
 		txs: &[Transaction],
 		reward: (Output, TxKernel),
 	) -> Block {
+		self.try_build_block(prev, txs, reward).unwrap()
+	}
+	/// As build_block, but an invalid transaction set (double spend, duplicate) is an Err.
+	pub fn try_build_block(
+		&self,
+		prev: &BlockHeader,
+		txs: &[Transaction],
+		reward: (Output, TxKernel),
+	) -> Result<Block, String> {
 		let next = consensus::next_difficulty(prev.height + 1, self.chain.difficulty_iter().unwrap());
-		let mut b = Block::new(prev, txs, next.clone().difficulty, reward).unwrap();
+		let mut b = Block::new(prev, txs, next.clone().difficulty, reward)
+			.map_err(|e| format!("{:?}", e))?;
 		b.header.timestamp = prev.timestamp + chrono::Duration::seconds(60);
 		b.header.pow.secondary_scaling = next.secondary_scaling;
-		self.chain.set_txhashset_roots(&mut b).unwrap();
+		self.chain
+			.set_txhashset_roots(&mut b)
+			.map_err(|e| format!("{:?}", e))?;
 		pow::pow_size(
 			&mut b.header,
 			next.difficulty,
 			global::proofsize(),
 			global::min_edge_bits(),
 		)
-		.unwrap();
-		b
+		.map_err(|e| format!("{:?}", e))?;
+		Ok(b)
 	}
 	pub fn process(&self, b: Block) -> Result<(), grin_chain::Error> {
 		self.chain.process_block(b, Options::MINE).map(|_| ())
